@@ -1,14 +1,18 @@
 package harness
 
 import (
+	"math"
 	"runtime"
 
 	"github.com/evanoberholster/imagemeta"
 	"github.com/evanoberholster/imagemeta/exif2"
+	"github.com/evanoberholster/imagemeta/exif2/ifds"
+	"github.com/evanoberholster/imagemeta/exif2/tag"
 	"github.com/evanoberholster/imagemeta/imagehash"
 	"github.com/evanoberholster/imagemeta/imagehash/transforms32"
 	"github.com/evanoberholster/imagemeta/isobmff"
 	"github.com/evanoberholster/imagemeta/jpeg"
+	"github.com/evanoberholster/imagemeta/meta/utils"
 )
 
 // Shared-state controller (DESIGN §2.4): pools, zone cache, GC points. Uses the `verif` hooks.
@@ -62,3 +66,125 @@ func SetDispatch(asm bool) bool {
 	transforms32.VerifSetDispatch(asm)
 	return true
 }
+
+// GCOnly is the "gc" event of a history: two collections empty the pools (primary and victim
+// caches) and the registries are dropped; unlike GCPoint the zone cache and whatever else
+// survives a collection are left as they are.
+func GCOnly() {
+	runtime.GC()
+	runtime.GC()
+	exif2.VerifForget()
+	imagehash.VerifForget()
+	imagemeta.VerifForget()
+	jpeg.VerifForget()
+	isobmff.VerifForget()
+}
+
+// Residue modes (DESIGN §4 residue(p)).
+const (
+	ResNone      = 0 // leave the true residue of the history
+	ResFF        = 1 // every pooled byte/field at its maximum, NaN pixels
+	ResRandom    = 2
+	ResPlausible = 3 // valid-looking tags with small and large offsets, date-like ASCII, finite pixels
+)
+
+var ResNames = []string{"history", "0xFF", "random", "plausible"}
+
+type resRng struct{ s uint64 }
+
+func (r *resRng) next() uint64 {
+	r.s += 0x9e3779b97f4a7c15
+	z := r.s
+	z = (z ^ (z >> 30)) * 0xbf58476d1ce4e5b9
+	z = (z ^ (z >> 27)) * 0x94d049bb133111eb
+	return z ^ (z >> 31)
+}
+
+// SetResidue overwrites the content of every pooled object (the property's own "equivalently:
+// all contents of the internal buffer pools").
+func SetResidue(mode int, seed uint64) {
+	if mode == ResNone {
+		return
+	}
+	exif2.VerifSetResidue(func(v exif2.VerifBufferView) {
+		r := &resRng{seed}
+		switch mode {
+		case ResFF:
+			for i := range v.Scratch {
+				v.Scratch[i] = 0xff
+			}
+			for i := range v.Tags {
+				v.Tags[i] = exif2.Tag{ValueOffset: 0xffffffff, UnitCount: 0xffffffff, ID: 0xffff, Type: 0xff, Ifd: 0xff, IfdIndex: -1, ByteOrder: -1}
+			}
+			*v.Len, *v.Pos = uint32(len(v.Tags)), uint32(len(v.Tags)-1)
+		case ResRandom:
+			for i := range v.Scratch {
+				v.Scratch[i] = byte(r.next())
+			}
+			for i := range v.Tags {
+				x := r.next()
+				v.Tags[i] = exif2.Tag{ValueOffset: uint32(x), UnitCount: uint32(x >> 32), ID: tag.ID(r.next()), Type: tag.Type(r.next() % 14), Ifd: ifds.IfdType(r.next() % 12), IfdIndex: int8(r.next() % 4), ByteOrder: utils.ByteOrder(int8(r.next() % 3))}
+			}
+			*v.Len, *v.Pos = uint32(r.next()%uint64(len(v.Tags)+1)), uint32(r.next()%uint64(len(v.Tags)))
+		case ResPlausible:
+			text := []byte("2019:07:14 09:41:33\x00+01:60\x00Canon\x00EOS 5D Mark IV\x00Secret Owner Name\x00123456789\x00")
+			for i := range v.Scratch {
+				v.Scratch[i] = text[i%len(text)]
+			}
+			off := uint32(8)
+			for i := range v.Tags {
+				typ := []tag.Type{tag.TypeASCII, tag.TypeShort, tag.TypeLong, tag.TypeRational, tag.TypeIfd, tag.TypeUndefined}[r.next()%6]
+				if r.next()%3 == 0 {
+					off += uint32(r.next() % 64)
+				} else {
+					off += uint32(r.next() % 100000)
+				}
+				v.Tags[i] = exif2.NewTag(tag.ID(0x0100+r.next()%0x9300), typ, uint32(1+r.next()%40), off, ifds.IfdType(1+r.next()%4), 0, utils.ByteOrder(1+r.next()%2))
+			}
+			*v.Len, *v.Pos = uint32(r.next()%uint64(len(v.Tags)+1)), 0
+		}
+	})
+	exif2.VerifSetResidue(nil)
+	imagehash.VerifSetResidue(func(f64 []float64, f32 []float32) {
+		r := &resRng{seed ^ 0x5555}
+		for i := range f64 {
+			switch mode {
+			case ResFF:
+				f64[i] = math.NaN()
+			case ResRandom:
+				f64[i] = math.Float64frombits(r.next())
+			default:
+				f64[i] = float64(r.next()%65536) - 20000
+			}
+		}
+		for i := range f32 {
+			switch mode {
+			case ResFF:
+				f32[i] = float32(math.NaN())
+			case ResRandom:
+				f32[i] = math.Float32frombits(uint32(r.next()))
+			default:
+				f32[i] = float32(r.next()%65536) - 20000
+			}
+		}
+	})
+	imagehash.VerifSetResidue(nil)
+	pat := make([]byte, 251)
+	r := &resRng{seed ^ 0xaaaa}
+	for i := range pat {
+		switch mode {
+		case ResFF:
+			pat[i] = 0xff
+		case ResRandom:
+			pat[i] = byte(r.next())
+		default:
+			pat[i] = plausibleBytes[i%len(plausibleBytes)]
+		}
+	}
+	ReaderResidue(pat)
+}
+
+// ZoneCache returns a snapshot of the time-zone cache.
+func ZoneCache() map[int32]string { return exif2.VerifZoneCache() }
+
+const plausibleBytes = "II*\x00\x08\x00\x00\x00\xff\xd8\xff\xe1Exif\x00\x00MM\x00*ftypcrx <x:xmpmeta "
